@@ -6,6 +6,7 @@ import (
 	"fmt"
 	"io"
 	"net"
+	"os"
 	"time"
 
 	"github.com/jech/storrent/crypto"
@@ -685,6 +686,7 @@ type shortWriter struct {
 	failAfter int
 	written   int
 	failed    bool
+	transient bool // the failure is an expired write deadline: later writes work again
 }
 
 func (w *shortWriter) Write(p []byte) (int, error) {
@@ -694,6 +696,15 @@ func (w *shortWriter) Write(p []byte) (int, error) {
 	n := len(p)
 	if w.failAfter > 0 && w.written+n >= w.failAfter {
 		n = w.failAfter - w.written
+		if w.transient {
+			// the peer did not read for a while: part of the chunk went out,
+			// the deadline expired; the caller may extend it and go on
+			simrt.Fault("underlying-write-deadline")
+			w.failAfter = 0
+			k, _ := w.Conn.Write(p[:n])
+			w.written += k
+			return k, &net.OpError{Op: "write", Net: "tcp", Err: os.ErrDeadlineExceeded}
+		}
 		simrt.Fault("underlying-write-error")
 		w.failed = true
 		k, _ := w.Conn.Write(p[:n])
@@ -727,8 +738,10 @@ func cryptoStreamMain(rc *RunCtx) {
 		shortDen = simrt.Pick(st, 4, 2, 10)
 	}
 	failAt := 0
+	transient := false
 	if st.Bool(1, 3) {
 		failAt = 2000 + st.Choice(300000)
+		transient = st.Bool(1, 3)
 	}
 	var cconn, sconn net.Conn
 	var cerr, serr error
@@ -766,6 +779,7 @@ func cryptoStreamMain(rc *RunCtx) {
 	sw.failAfter = 0
 	if failAt > 0 {
 		sw.failAfter = sw.written + failAt
+		sw.transient = transient
 	}
 	sc.SetReadDeadline(time.Time{})
 	// writers on the client side
